@@ -217,6 +217,27 @@ fn check_random_circuit(family: &'static str, index: u64, r: &mut Rng, one_qubit
         b.seed(p.seed);
         b.build()
     };
+    let by_fields = {
+        let mut b = Circuit::random();
+        let e = rc_effective(&p);
+        b.qubits = p.qubits;
+        b.depth = p.depth;
+        b.p_cnot = e[0];
+        b.p_cz = e[1];
+        b.p_h = e[2];
+        b.p_s = e[3];
+        b.p_t = e[4];
+        b.seed(p.seed);
+        b.build()
+    };
+    if by_fields != circ {
+        c.violation(
+            "Circuit::random.build|parameters-through-public-fields-give-another-object",
+            family,
+            index,
+            json!({"params": params, "through_setters": qasm(&circ), "through_fields": qasm(&by_fields)}),
+        );
+    }
     if again != circ || other.as_ref().ok() != Some(&circ) || reseeded != circ {
         c.violation(
             "Circuit::random.build|not-reproducible",
@@ -280,6 +301,37 @@ fn hs_build(seed: u64, n: usize, depth: usize, n_ccz: usize) -> (Circuit, Vec<u8
     Circuit::random_hidden_shift().seed(seed).qubits(n).clifford_depth(depth).n_ccz(n_ccz).build()
 }
 
+/// The same request with the parameters written into the builder's public fields (they are
+/// `pub`, so this is legal use) - on a fresh builder, or on one that was first configured for
+/// another register through the setters.
+fn hs_build_fields(seed: u64, n: usize, depth: usize, n_ccz: usize, reuse: bool) -> (Circuit, Vec<u8>) {
+    let mut b = Circuit::random_hidden_shift();
+    if reuse {
+        b.seed(seed ^ 0x77).qubits(n + 4).clifford_depth(depth + 3).n_ccz(n_ccz + 1);
+        let _ = b.build();
+    }
+    b.qubits = n;
+    b.clifford_depth = depth;
+    b.n_ccz = n_ccz;
+    b.seed(seed);
+    b.build()
+}
+
+fn pg_build_fields(p: &PgParams, reuse: bool) -> Circuit {
+    let mut b = Circuit::random_pauli_gadget();
+    if reuse {
+        b.seed(p.seed ^ 0x77).qubits(p.qubits + 3).depth(p.depth + 1).phase_denom(p.denom + 1).min_weight(1).max_weight(p.qubits + 3);
+        let _ = b.build();
+    }
+    b.qubits = p.qubits;
+    b.depth = p.depth;
+    b.phase_denom = p.denom;
+    b.min_weight = p.min_w;
+    b.max_weight = p.max_w;
+    b.seed(p.seed);
+    b.build()
+}
+
 fn check_hidden_shift(family: &'static str, index: u64, r: &mut Rng, sizes: &[usize]) {
     let c = ctx();
     let n = *r.pick(sizes);
@@ -300,6 +352,21 @@ fn check_hidden_shift(family: &'static str, index: u64, r: &mut Rng, sizes: &[us
     let other = on_other_thread(move || hs_build(seed, n, depth, n_ccz));
     if again != (circ.clone(), shift.clone()) || other.as_ref().ok() != Some(&(circ.clone(), shift.clone())) {
         c.violation("random_hidden_shift.build|not-reproducible", family, index, json!({"params": params, "first": qasm(&circ), "second": qasm(&again.0), "shift1": shift, "shift2": again.1}));
+    }
+    // same seed, same parameters, written into the public fields (fresh / re-targeted builder)
+    {
+        let reuse = index % 2 == 1;
+        c.count(if reuse { "hidden-shift:fields-on-a-reused-builder" } else { "hidden-shift:fields-on-a-fresh-builder" }, 1);
+        match guarded(move || hs_build_fields(seed, n, depth, n_ccz, reuse)) {
+            Ok(x) if x == (circ.clone(), shift.clone()) => {}
+            Ok(x) => c.violation(
+                "random_hidden_shift.build|parameters-through-public-fields-give-another-object",
+                family,
+                index,
+                json!({"params": params, "builder_reused": reuse, "through_setters": qasm(&circ), "through_fields": qasm(&x.0), "shift_setters": shift, "shift_fields": x.1}),
+            ),
+            Err(e) => report_panic("random_hidden_shift.build", "parameters-through-public-fields", &e, family, index, &params),
+        }
     }
     if circ.num_qubits() != n || shift.len() != n || shift.iter().any(|&b| b > 1) {
         c.violation("random_hidden_shift.build|shape", family, index, json!({"params": params, "qubits": circ.num_qubits(), "shift": shift}));
@@ -563,6 +630,20 @@ fn check_pauli_gadget_sized(family: &'static str, index: u64, r: &mut Rng, wide:
     if again != circ || other.as_ref().ok() != Some(&circ) {
         c.violation("random_pauli_gadget.build|not-reproducible", family, index, json!({"params": params, "first": qasm(&circ), "second": qasm(&again)}));
     }
+    {
+        let reuse = index % 2 == 1;
+        let p3 = p.clone();
+        match guarded(move || pg_build_fields(&p3, reuse)) {
+            Ok(x) if x == circ => {}
+            Ok(x) => c.violation(
+                "random_pauli_gadget.build|parameters-through-public-fields-give-another-object",
+                family,
+                index,
+                json!({"params": params, "builder_reused": reuse, "through_setters": qasm(&circ), "through_fields": qasm(&x)}),
+            ),
+            Err(e) => report_panic("random_pauli_gadget.build", "parameters-through-public-fields", &e, family, index, &params),
+        }
+    }
     let fail = |class: &str, why: String| {
         c.violation(&format!("random_pauli_gadget.build|{class}"), family, index, json!({"params": params, "why": why, "circuit": qasm(&circ)}));
     };
@@ -695,6 +776,37 @@ pub fn run() {
     let n = t.pick(6000usize, 250_000usize);
     par_cases("random-circuit", n, |r, i| check_random_circuit("random-circuit", i, r, false));
     par_cases("random-circuit-wide", t.pick(300, 20_000), |r, i| check_random_circuit("random-circuit-wide", i, r, false));
+    // "depth gates" when the probabilities add up to exactly 1 (dyadic values, so the sum is
+    // exact in f32 whatever the order): a million gates per circuit, so that events of
+    // probability 2^-25 per gate are seen; only counts and arities are inspected
+    par_cases("random-circuit-huge-depth", t.pick(128usize, 2_000usize), |r, i| {
+        let c = ctx();
+        let depth = 1_000_000usize;
+        let qubits = 2 + r.below(3);
+        let seed = r.next_u64();
+        let probs: [f32; 5] = *r.pick(&[[0.0, 0.0, 0.5, 0.0, 0.5], [0.25, 0.25, 0.25, 0.0, 0.25], [0.5, 0.0, 0.25, 0.125, 0.125], [0.0, 0.5, 0.0, 0.5, 0.0]]);
+        let params = json!({"seed": seed, "qubits": qubits, "depth": depth, "p_cnot,p_cz,p_h,p_s,p_t": probs});
+        let res = guarded(move || {
+            let mut b = Circuit::random();
+            b.seed(seed).qubits(qubits).depth(depth).p_cnot(probs[0]).p_cz(probs[1]).p_h(probs[2]).p_s(probs[3]).p_t(probs[4]);
+            let circ = b.build();
+            let bad_arity = circ.gates.iter().filter(|g| g.qs.len() != if matches!(g.t, GType::CNOT | GType::CZ) { 2 } else { 1 } || g.qs.iter().any(|&q| q >= qubits)).count();
+            (circ.num_gates(), bad_arity)
+        });
+        match res {
+            Ok((n, bad)) => {
+                c.count("random-circuit:gates-generated-in-huge-depth-family", n as u64);
+                if n != depth {
+                    c.violation("Circuit::random.build|fewer-gates-than-depth-although-probabilities-sum-to-one", "random-circuit-huge-depth", i, json!({"params": params, "gates": n}));
+                }
+                if bad > 0 {
+                    c.violation("Circuit::random.build|qubit-arguments-not-distinct-in-range", "random-circuit-huge-depth", i, json!({"params": params, "gates_with_bad_arguments": bad}));
+                }
+            }
+            Err(e) => report_panic("Circuit::random.build", "admissible-parameters", &e, "random-circuit-huge-depth", i, &params),
+        }
+        c.case("random-circuit-huge-depth", Some(seed));
+    });
     par_cases("random-circuit-one-qubit", t.pick(20, 500), |r, i| check_random_circuit("random-circuit-one-qubit", i, r, true));
     par_cases("hidden-shift", n, |r, i| check_hidden_shift("hidden-shift", i, r, &[6, 8, 10, 12]));
     par_cases("hidden-shift-inadmissible", t.pick(12, 100), |r, _| check_hidden_shift_inadmissible("hidden-shift-inadmissible", r));
